@@ -692,7 +692,7 @@ pub fn case(tier: &str, seed: u64, case: u64) -> CaseResult {
 		res.steps += 1;
 		res.probe(&format!("api_valid:{}", method));
 		let reply = out.as_ref().and_then(|o| o.reply.clone());
-		log.push_str(&format!("{} valid -> {:016x}\n", method, fnv64(reply.as_ref().map(|r| r.to_string()).unwrap_or_default().as_bytes())));
+		log.push_str(&format!("{} valid -> ok={}\n", method, reply.as_ref().and_then(|r| r.get("result")).and_then(|r| r.get("Ok")).is_some()));
 		if let Some(v) = judge(kind_req, method, "valid", req, out, seed, case) {
 			found = Some(v);
 			break 'outer;
@@ -748,7 +748,9 @@ pub fn case(tier: &str, seed: u64, case: u64) -> CaseResult {
 				res.runs += 1;
 				res.steps += 1;
 				res.fault("api-response-mutation");
-				res.run_digests.push((fnv64(m.to_string().as_bytes()), true));
+				// (replies carry wall-clock fields - a peer's last_connected, a pool entry's tx_at -: the
+				// digest names the mutation, not the bytes)
+				res.run_digests.push((fnv64(format!("{}|{}", method, what).as_bytes()), true));
 				if out.as_ref().map(|o| o.decoded_ok).unwrap_or(false) {
 					res.probe("api_response_mutant_decoded");
 				}
